@@ -156,7 +156,8 @@ PROPS = {
         "claim": "for a request stream (protocol 2025-06-18 and 2025-11-25 with priming event) and the standalone stream: all histories (exhaustive to the shallow depth, state-deduplicated beyond) over {server writes the next of 3 notifications and the final response, client cuts the attached exchange, client resumes with the id of any event issued so far (5 positions), a second concurrent resume}: every exchange delivers, from its resume point on, exactly the messages appended to the stream in append order with ids stream_k increasing by one, ids denote the same payload on every delivery, an attached exchange is caught up at quiescence, a concurrent resume is refused with 409, and after any history the whole stream (incl. the final response) is obtainable by one more resume",
         "note": "one request stream with 4 messages; purge/eviction of the event store is covered by C20, not here; concurrent Write vs. serveGET interleavings below the request level are not explored (requests are run to quiescence)",
         "parts": [
-            {"pkg": "mcp", "mode": "plain", "test": "TestVerifC08", "shards": 1, "gomaxprocs": 16, "time_s": {"quick": 150, "thorough": 1500}},
+            {"pkg": "mcp", "mode": "plain", "test": "TestVerifC08", "shards": 1, "gomaxprocs": 16, "time_s": {"quick": 150, "thorough": 1500}, "scenario_prefix": "re"},
+            {"pkg": "mcp", "mode": "instr", "test": "TestVerifC08Race", "two_phase": True, "scenario_prefix": "race/"},
         ],
         "assumptions": ["synctest.Wait() quiescence = all bytes the server can write have been written and read"],
     },
